@@ -81,7 +81,7 @@ def _gen_fromU(rng, tier):
                     for kind in ("fiber", "tensor"):
                         yield {"prop": PROP, "op": "fromU", "kind": kind, "d": depth, "dflt": dflt,
                                "dims": dims, "nest": nest}
-    nrand = 1500 if tier == "quick" else 40000
+    nrand = 1500 if tier == "quick" else 80000
     for i in range(nrand):
         depth = rng.choice([1, 2, 2, 3, 3, 4])
         dims = [rng.choice([1, 2, 3, 4, 5]) for _ in range(depth)]
@@ -135,7 +135,7 @@ def _gen_yaml(rng, tier):
             for kind in ("fiber", "tensor"):
                 yield {"prop": PROP, "op": "yaml", "kind": kind, "d": 2, "dflt": dflt, "name": "",
                        "build": {"tree": tr}}
-    nrand = 500 if tier == "quick" else 12000
+    nrand = 500 if tier == "quick" else 24000
     for i in range(nrand):
         depth = rng.choice([1, 2, 2, 3, 3, 4])
         dflt = rng.choice([0, 0, 0, 7])
@@ -171,7 +171,7 @@ def _gen_random(rng, tier):
                         for kind in ("fiber", "tensor"):
                             yield {"prop": PROP, "op": "random", "kind": kind, "shape": shape,
                                    "density": q, "interval": interval, "seed": seed, "dflt": dflt}
-    nrand = 300 if tier == "quick" else 8000
+    nrand = 300 if tier == "quick" else 16000
     for i in range(nrand):
         depth = rng.choice([1, 2, 3, 4])
         shape = [rng.choice([1, 2, 3, 4, 6]) for _ in range(depth)]
